@@ -938,6 +938,81 @@ def gen() -> dict:
         raise
 
 
+def _last_def(cls: ast.ClassDef, name: str) -> ast.FunctionDef:
+    """the implementation among typing overloads: the last def of that name"""
+    found = [n for n in cls.body if isinstance(n, ast.FunctionDef) and n.name == name]
+    if not found:
+        raise px.Unsupported(f"{cls.name}.{name} not found")
+    return found[-1]
+
+
+def _check_pins(dbg, cls, init, vcode, trusted) -> None:
+    """statement pins (tools/pins/c20_*.txt): everything the model or the harness oracles stand for that is NOT translated
+    into Gen.v.  Translated parts inside a pinned function are holes.  Fully translated (no pin needed, every statement is
+    consumed by the T2 translators, which refuse what they do not know): DebuggedApplication.__call__, execute_command,
+    display_console, pin_auth, log_pin_request, check_pin_trust, _fail_pin_auth; sansio.utils._strip_port, host_is_trusted,
+    get_host; sansio.request.Request.host; wsgi.get_host."""
+    holes = {f"Value({vcode!r})": "<VALUE-TYPECODE>", repr(trusted): "<DEFAULT-TRUSTED-HOSTS>"}
+    parts = []
+
+    def add(title, node, h=None):
+        import copy
+        node = copy.deepcopy(node)
+        for sub in ast.walk(node):          # attribute docstrings and other bare string statements are not code
+            for field in ("body", "orelse", "finalbody"):
+                blk = getattr(sub, field, None)
+                if isinstance(blk, list):
+                    kept = [x for x in blk if not (isinstance(x, ast.Expr) and isinstance(x.value, ast.Constant) and isinstance(x.value.value, str))]
+                    if len(kept) != len(blk):
+                        setattr(sub, field, kept or [ast.Pass()])
+        parts.append(f"## {title}\n" + px.skeleton(node, h or {}))
+
+    add("hash_pin", px.find_def(dbg, "hash_pin"))
+    add("_ConsoleFrame", px.find_class(dbg, "_ConsoleFrame"))
+    add("DebuggedApplication.__init__", init, holes)
+    for m in cls.body:
+        # the pin property, its setter, pin_cookie_name
+        if isinstance(m, ast.FunctionDef) and m.name in ("pin", "pin_cookie_name"):
+            add(f"DebuggedApplication.{m.name} [{', '.join(ast.unparse(d) for d in m.decorator_list)}]", m)
+    for name in ("debug_application", "get_resource", "check_host_trust"):
+        add(f"DebuggedApplication.{name}", _method(cls, name))
+    # class-level annotations / attributes of DebuggedApplication other than methods
+    add("DebuggedApplication [class-level statements]",
+        ast.Module(body=[x for x in cls.body if not isinstance(x, ast.FunctionDef)
+                         and not (isinstance(x, ast.Expr) and isinstance(x.value, ast.Constant))], type_ignores=[]))
+    # what the harness reads off the pages: the flags and the secret in the script block, and the two render functions
+    tb = px.load("debug/tbtools.py")
+    page = px.const(px.find_assign(tb, "HEADER"))
+    marks = [ln.strip() for ln in page.splitlines() if any(k in ln for k in ("CONSOLE_MODE", "EVALEX", "SECRET"))]
+    if len(marks) < 4:
+        raise px.Unsupported("tbtools.HEADER no longer carries the CONSOLE_MODE / EVALEX / EVALEX_TRUSTED / SECRET lines")
+    parts.append("## tbtools.HEADER [lines with CONSOLE_MODE / EVALEX / EVALEX_TRUSTED / SECRET]\n" + "\n".join(marks))
+    for nm_ in ("PAGE_HTML", "CONSOLE_HTML"):
+        top = px.find_assign(tb, nm_)
+        if not (isinstance(top, ast.BinOp) and ast.unparse(top).startswith("HEADER + ")):
+            raise px.Unsupported(f"tbtools.{nm_} no longer starts with HEADER")
+    add("tbtools.render_console_html", px.find_def(tb, "render_console_html"))
+    add("tbtools.DebugTraceback.render_debugger_html", _method(px.find_class(tb, "DebugTraceback"), "render_debugger_html"))
+    add("tbtools.DebugTraceback.all_frames", _method(px.find_class(tb, "DebugTraceback"), "all_frames"))
+    add("tbtools.DebugFrameSummary.eval", _method(px.find_class(tb, "DebugFrameSummary"), "eval"))
+    px.check_pin("C20", "c20_debugger.txt", "\n".join(parts) + "\n",
+                 "debugger code the C20 model stands for without translating it (hash_pin, _ConsoleFrame, __init__, pin properties, "
+                 "debug_application, get_resource, check_host_trust, page flags)")
+
+    parts.clear()
+    add("wsgi._get_server", px.find_def(px.load("wsgi.py"), "_get_server"))
+    exc = px.load("exceptions.py")
+    add("exceptions.BadRequest", px.find_class(exc, "BadRequest"))
+    add("exceptions.SecurityError", px.find_class(exc, "SecurityError"))
+    ds = px.load("datastructures/structures.py")
+    add("datastructures.TypeConversionDict.get", _last_def(px.find_class(ds, "TypeConversionDict"), "get"))
+    add("datastructures.MultiDict.__getitem__", _last_def(px.find_class(ds, "MultiDict"), "__getitem__"))
+    req = px.find_class(px.load("sansio/request.py"), "Request")
+    add("sansio.request.Request.args", _method(req, "args"))
+    px.check_pin("C20", "c20_host_glue.txt", "\n".join(parts) + "\n",
+                 "glue the C20 harness and model stand for (server tuple, SecurityError = 400, args.get(type=int), args[...])")
+
+
 def _gen() -> dict:
     """T1 + T2: regenerate coq/C20/Gen.v from debug/__init__.py and sansio/utils.py."""
     _ALIAS.clear()
@@ -1108,6 +1183,7 @@ def _gen() -> dict:
     out.append(f"Definition lock_test (count : N) : bool := {e['meta']['lock_test']}.\n")
     out.append("Definition pin_auth (r : atoms) (locked : bool) : outcome * cnt_action :=\n" + _indent(term) + ".\n")
     out.append("Definition call (r : atoms) (locked : bool) : outcome * cnt_action :=\n" + _indent(CallFn().run(body("__call__"), env0())) + ".\n")
+    _check_pins(dbg, cls, init, vcode, trusted)
     px.write_if_changed(os.path.join(COQ, "C20", "Gen.v"), "\n".join(out))
     return {"PIN_TIME": eval(compile(ast.Expression(pin_time), "<PIN_TIME>", "eval"), {"__builtins__": {}}),  # noqa: S307
             "typecode": vcode, "trusted": trusted, "sleep": (long_s, short_s)}
@@ -2043,9 +2119,29 @@ def run(chk: Check, consts: dict | None) -> None:
         wd._ConsoleFrame.eval = real_ceval
 
     # ------------------------------------------------------------ model side
+    if consts is None:
+        # the translator refused the source: coq/C20/model_extracted.ml is whatever an earlier tree produced, comparing the
+        # current code with it would say nothing; the oracles above have run and any concrete failing input is recorded
+        chk.notes.append("model comparison skipped: no model of the current source (translator stopped)")
+        return
     exe = chk.build_modelrun("C20")
     if exe:
-        res = chk.run_model(exe, lines)
+        # the model is fed in chunks (the thorough tier has > 10^6 cases: one 0.5 GB input string and its output made the
+        # process peak at 2.6 GB); a chunk whose model process fails for an external reason (killed, out of memory) is
+        # tried once more before it counts as a broken obligation
+        res: list | None = []
+        CH = 100_000
+        for i0 in range(0, len(lines), CH):
+            part = chk.run_model(exe, lines[i0:i0 + CH])
+            if part is None:
+                chk.notes.append(f"model run of cases {i0}..{i0 + CH} failed once and was repeated")
+                if chk.breaks and chk.breaks[-1]["kind"] == "model-run":
+                    chk.breaks.pop()
+                part = chk.run_model(exe, lines[i0:i0 + CH])
+                if part is None:       # the second failure stays recorded as the broken obligation
+                    res = None
+                    break
+            res.extend(part)
         if res is not None:
             mism = unsupported = 0
             for ln, a, b, lab in zip(lines, impl_out, res, labels):
@@ -2098,7 +2194,7 @@ def main(chk: Check) -> None:
     except px.Unsupported as e:
         chk.broken("translator", "C20/Gen.v", str(e))
         chk.notes.append("the translator stopped: Gen.v was replaced by a file that does not compile, no theorem is counted as discharged; "
-                         "the differential comparison below uses the model extracted on the last run the translator accepted")
+                         "the differential comparison is skipped (the oracles still run)")
     chk.forbidden_scan()
     built = chk.coq_make(["C20/Proofs.vo", "C20/CookieHeader.vo", "C20/Extract.vo"])
     for _ in range(3):
@@ -2135,7 +2231,23 @@ def main(chk: Check) -> None:
         "atoms of the abstract request are computed by the model from the concrete query arguments, path, Host and cookie (Model.abstract), "
         "so the comparison with the real DebuggedApplication covers the abstraction as well",
     ]
-    run(chk, consts)
+    chk.trusted += [
+        "statement pins tools/pins/c20_debugger.txt, c20_host_glue.txt (normalised source, holes where Gen.v translates): hash_pin, "
+        "_ConsoleFrame, DebuggedApplication.__init__ / pin / pin.setter / pin_cookie_name / debug_application / get_resource / "
+        "check_host_trust / class-level statements, tbtools page flags + render_console_html + render_debugger_html + all_frames + "
+        "DebugFrameSummary.eval, wsgi._get_server, BadRequest / SecurityError, TypeConversionDict.get, MultiDict.__getitem__, "
+        "sansio Request.args",
+        "validated differentially only, no pin wanted: get_machine_id / get_pin_and_cookie_name (PIN derivation, out of scope; only "
+        "'WERKZEUG_DEBUG_PIN=off gives no PIN' is used and is exercised by the configuration sweep); debug.console.Console and the "
+        "evaluation itself (the model stops at 'frame.eval is called'); http.parse_cookie / dump_cookie / Response.set_cookie / "
+        "delete_cookie (C13's model and pins); werkzeug.test.create_environ (harness input builder); CPython: multiprocessing.Value, "
+        "time, hashlib.sha1, urllib.parse.parse_qsl, str.encode('idna'), int()",
+    ]
+    try:
+        run(chk, consts)
+    except Exception as e:  # noqa: BLE001  (e.g. a changed signature): report what was found so far instead of crashing
+        import traceback
+        chk.broken("correspondence", "C20 harness stopped", f"{type(e).__name__}: {e}\n" + traceback.format_exc()[-1500:])
     chk.finish(rule="host pairs: every host of a label grammar (labels incl. look-alikes, IDN/punycode, over-long and empty labels, ports, "
                     "bracketed IPv6 literals, malformed brackets) x 23 trusted lists, exhaustively; get_host through sansio, wsgi and "
                     "Request.host; debugger: exhaustive product command(14) x secret(3) x frame x Host x cookie x evalex x PIN on/off "
